@@ -60,12 +60,19 @@ let do_mop (w : string array) : unit =
   let tabs = if lagged then gen_tables_lagged else gen_tables in
   let blist () = let k = ni () in List.init k (fun _ -> nb ()) in
   let nlist () = let k = ni () in List.init k (fun _ -> nn ()) in
+  let sched_args = ref (O, []) in
+  if opname = "sched" then begin
+    let step = nn () in let k = ni () in
+    let ots = List.init k (fun _ -> let o = nn () in let t = nn () in (o, t)) in
+    sched_args := (step, ots)
+  end;
   let op =
     match opname with
     | "deletebias" -> let b = nn () in MDeleteBias b
     | "deletecolvar" -> let v = nn () in MDeleteColvar v
     | "reset" -> MReset
     | "check" -> MReset   (* not executed: wf_check / acct_check of the given state *)
+    | "sched" -> MReset   (* not executed: m_sched with the arguments collected below *)
     | "enable" -> let o = nn () in let f = nn () in MPrim (OpEnable (o, f, false, true, false))
     | "disable" -> let o = nn () in let f = nn () in MPrim (OpDisable (o, f))
     | "newcolvar" ->
@@ -96,6 +103,11 @@ let do_mop (w : string array) : unit =
   let na = ni () in
   let atoms = List.init na (fun _ -> z_of_int (ni ())) in
   let m = { m_objs = st; m_info = info; m_atoms = atoms } in
+  if opname = "sched" then
+    (match m_sched tabs fuel (fst !sched_args) (snd !sched_args) m with
+     | None -> print_string "FUEL\n"
+     | Some m' -> Printf.printf "0 %s\n" (print_mstate m'))
+  else
   if opname = "check" then
     Printf.printf "%d %d\n" (if wf_check m then 1 else 0) (if acct_check m then 1 else 0)
   else
@@ -126,6 +138,22 @@ let do_chk (w : string array) : unit =
       { o_class = cls; o_fs = fs; o_children = ch; o_parents = pa }) in
   Printf.printf "%d %d\n" (if consistent_check tabs st g then 1 else 0) (if excl_check tabs st then 1 else 0)
 
+(* NAMES { D k unnamed ok | X k r | R }*   ->  live default names "k:r k:r .."  (NameModel.n_run) *)
+let do_names (w : string array) : unit =
+  let n = Array.length w in
+  let ops = ref [] in
+  let p = ref 1 in
+  while !p < n do
+    (match w.(!p) with
+     | "D" -> ops := NDefine (nat_of_int (int_of_string w.(!p + 1)), w.(!p + 2) <> "0", w.(!p + 3) <> "0") :: !ops; p := !p + 4
+     | "X" -> ops := NDelete (nat_of_int (int_of_string w.(!p + 1)), nat_of_int (int_of_string w.(!p + 2))) :: !ops; p := !p + 3
+     | "R" -> ops := NReset :: !ops; p := !p + 1
+     | _ -> failwith "NAMES: bad token")
+  done;
+  let st = n_run (List.rev !ops) n_empty in
+  print_string (String.concat " " (List.map (fun (k, r) -> Printf.sprintf "%d:%d" (int_of_nat k) (int_of_nat r)) st.n_live));
+  print_newline ()
+
 let () =
   try
     while true do
@@ -133,6 +161,7 @@ let () =
       let w = Array.of_list (words line) in
       if Array.length w > 0 && w.(0) = "MOP" then do_mop w
       else if Array.length w > 0 && w.(0) = "CHK" then do_chk w
+      else if Array.length w > 0 && w.(0) = "NAMES" then do_names w
       else if Array.length w > 0 then begin
         let p = ref 1 in
         let next () = let s = w.(!p) in Stdlib.incr p; s in
